@@ -1,5 +1,5 @@
 ---------------------------- MODULE Base ----------------------------
-EXTENDS Naturals, Sequences, FiniteSets
+EXTENDS Integers, Sequences, FiniteSets
 Pow2(n) == 2^n
 Xor(a, b) == (a + b) % 2
 Byte == 0..255
